@@ -18,7 +18,7 @@ import (
 )
 
 type Op struct {
-	K     string `json:"k"` // write, writev, sendfile
+	K     string `json:"k"` // write, writev, sendfile, pause (Sizes[0] microseconds), release (shim tier only)
 	Sizes []int  `json:"sizes"`
 	Off   int    `json:"off,omitempty"` // sendfile: offset of the range inside the temp file
 }
@@ -205,6 +205,10 @@ func runCase(c Case) vlib.Result {
 			defer wg.Done()
 			st := states[wi]
 			for oi, op := range c.Writers[wi] {
+				if op.K == "pause" {
+					time.Sleep(time.Duration(op.Sizes[0]) * time.Microsecond)
+					continue
+				}
 				if atomic.LoadInt64(&accepted)-atomic.LoadInt64(&received) > int64(kernelCap) {
 					atomic.AddInt64(&backlogOps, 1)
 				}
@@ -391,9 +395,11 @@ func gen(t *rapid.T) Case {
 		var ops []Op
 		n := rapid.IntRange(1, 8).Draw(t, "nops")
 		for i := 0; i < n; i++ {
-			k := rapid.SampledFrom([]string{"write", "write", "write", "writev", "writev", "sendfile"}).Draw(t, "opkind")
+			k := rapid.SampledFrom([]string{"write", "write", "write", "writev", "writev", "sendfile", "pause"}).Draw(t, "opkind")
 			op := Op{K: k}
 			switch k {
+			case "pause":
+				op.Sizes = []int{rapid.SampledFrom([]int{100, 1000, 5000}).Draw(t, "pauseus")}
 			case "writev":
 				nb := rapid.IntRange(1, 6).Draw(t, "nbufs")
 				for j := 0; j < nb; j++ {
